@@ -18,6 +18,14 @@ import (
 type Env struct {
 	params   map[*ssa.Parameter]string
 	freevars map[*ssa.FreeVar]string
+	// argument values the parameters are bound to, with the caller's environment (so that engines that need more
+	// than the atom — the affine forms — can look through a call)
+	paramVals map[*ssa.Parameter]boundVal
+}
+
+type boundVal struct {
+	v   ssa.Value
+	env *Env
 }
 
 type Prov struct {
@@ -674,8 +682,8 @@ func (pv *Prov) Atom(v ssa.Value, env *Env) string {
 			}
 		}
 		// single-expression module helpers: remember what the call stands for (matchers may retry with it)
-		if f := x.Call.StaticCallee(); f != nil && !pv.CopyIsFresh && pv.p.InModule(f) && len(f.Blocks) == 1 && f.Signature.Results().Len() == 1 && pv.depth < 40 {
-			if ret, ok := f.Blocks[0].Instrs[len(f.Blocks[0].Instrs)-1].(*ssa.Return); ok && len(ret.Results) == 1 && len(f.Blocks[0].Instrs) <= 16 {
+		if f := x.Call.StaticCallee(); f != nil && !pv.CopyIsFresh && pv.p.InModule(f) && len(f.Blocks) == 1 && f.Signature.Results().Len() >= 1 && pv.depth < 40 {
+			if ret, ok := f.Blocks[0].Instrs[len(f.Blocks[0].Instrs)-1].(*ssa.Return); ok && len(ret.Results) >= 1 && len(f.Blocks[0].Instrs) <= 16 {
 				ne := &Env{params: map[*ssa.Parameter]string{}, freevars: map[*ssa.FreeVar]string{}}
 				for i, prm := range f.Params {
 					if i < len(origArgs) {
@@ -683,14 +691,20 @@ func (pv *Prov) Atom(v ssa.Value, env *Env) string {
 					}
 				}
 				if len(f.FreeVars) == 0 {
-					saved := pv.loadCtx
-					pv.loadCtx = nil
-					body := pv.Atom(ret.Results[0], ne)
-					pv.loadCtx = saved
 					if pv.expansions == nil {
 						pv.expansions = map[string]string{}
 					}
-					pv.expansions["call "+name+"("+strings.Join(args, ", ")+")"] = body
+					for ri, rv := range ret.Results {
+						saved := pv.loadCtx
+						pv.loadCtx = nil
+						body := pv.Atom(rv, ne)
+						pv.loadCtx = saved
+						key := "call " + name + "(" + strings.Join(args, ", ") + ")"
+						if len(ret.Results) > 1 {
+							key += fmt.Sprintf("#%d", ri) // straight-line helper with several results: each component
+						}
+						pv.expansions[key] = body
+					}
 				}
 			}
 		}
